@@ -180,3 +180,9 @@ func mutateNonce(h *Hist, r *mon.Rand, c *Call, p float64) {
 		c.Mut = "nonce"
 	}
 }
+
+// hostile returns the hostile-mutation probability of this history (shared helper: do not redefine).
+func (h *Hist) hostile() float64 {
+	f, _ := h.Vars["hostile"].(float64)
+	return f
+}
